@@ -191,6 +191,7 @@ type shardResult struct {
 	ShrinkRuns     int               `json:"shrink_runs"`
 	Replays        []replayResult    `json:"replays,omitempty"`
 	RapidRequested int               `json:"rapid_requested"`
+	HarnessNotes   map[string]string `json:"harness_notes,omitempty"`
 }
 
 type replayResult struct {
@@ -402,6 +403,16 @@ func Run[C any](t *testing.T, spec Spec[C]) {
 				}
 				o := newObs()
 				f := guarded(spec, c, o)
+				if f != nil && strings.HasPrefix(f.Signature, "harness/") {
+					// the harness could not set the case up or drive it (time-outs
+					// under load, ...): the case is not judged
+					o.Inconclusive(f.Signature)
+					if col.res.HarnessNotes == nil {
+						col.res.HarnessNotes = map[string]string{}
+					}
+					col.res.HarnessNotes[f.Signature] = f.Message
+					f = nil
+				}
 				col.observe(c, o, f)
 				if f != nil {
 					rt.Fatalf("%s: %s", f.Signature, f.Message)
